@@ -327,8 +327,8 @@ def krome_two_files_one_format(chk):
     the first file is not in force in the second."""
     from naunet.network import Network
     from .ode_checks import reset_species_state
-    a = chk.scratch / "first.krome"
-    b = chk.scratch / "second.krome"
+    a = chk.scratch / "zz-first.krome"          # (listed first, sorts last: the files are read in the order they are listed)
+    b = chk.scratch / "aa-second.krome"
     a.write_text("@format:idx,R,R,P,P,rate\n1,H,H,H2,,1.0d-10\n@format:idx,R,P,P,P,Tmin,Tmax,rate\n3,H2,H,H,,NONE,NONE,2.0d-10\n")
     b.write_text("2,H+,E,,H,g,,,NONE,.LE.5.5e3,3.92d-13\n4,H,E,,H+,E,E,,>1d2,NONE,5.0d-11\n")
     reset_species_state()
@@ -623,6 +623,13 @@ def run_c18(argv):
             d = c20.gen_desc(rng, k)
         d["allowed"], d["required"], d["cooling"] = [], [], []
         d["rate_modifier"] = {str(rng.choice([1, 2, 3])): rng.choice([0.0, 0, "0.0", 2.5e-10]), "5": rng.choice(["2.0 * zeta", 0.0, "1.0e-10"])}
+        if k == 0:
+            # a network whose reactions carry no number (built from plain Reaction objects, or read from a file that has none): the
+            # exported reactions.naunet has none either, and the modifiers of the exported project still name the same reactions
+            import re as _re
+            d["files"] = [["".join(_re.sub(r"^[^,]*,", "-1   ,", ln, count=1) + "\n" for ln in c.splitlines() if ln.strip()), f]
+                          for c, f in d["files"]]
+            d["rate_modifier"] = {"1": "2.5e-10 * sqrt(Tgas)", "3": 0.0}
         descs.append(d)
     descs.append(c20.grain_species_desc(rng))
     descs.append(c20.user_binding_desc(rng))      # user binding energies and yields have to survive the export as well
